@@ -124,6 +124,12 @@ impl EncryptedBody {
 				"EncryptedBody Dec: Encrypted request contains invalid Base64".to_string(),
 			)
 		})?;
+		// `from_hex` must only be given ASCII
+		if !self.nonce.is_ascii() {
+			return Err(Error::APIEncryption(
+				"EncryptedBody Dec: Invalid Nonce".to_string(),
+			));
+		}
 		let nonce = from_hex(&self.nonce)
 			.map_err(|_| Error::APIEncryption("EncryptedBody Dec: Invalid Nonce".to_string()))?;
 		if nonce.len() < 12 {
